@@ -15,6 +15,8 @@ var checks = map[string]func(tier string) *core.Report{
 	"C02": progcheck.C02,
 	"C11": progcheck.C11,
 	"C18": progcheck.C18,
+	"C14": progcheck.C14,
+	"C17": progcheck.C17,
 	"C08": rtcheck.C08,
 	"C09": rtcheck.C09,
 	"C10": rtcheck.C10,
